@@ -1293,3 +1293,91 @@ def kw_forward(ctx, repo, scope=("",), rule="KW-FWD", _self=False):
 
 NEW7 = [kw_forward]
 GENERIC.extend(NEW7)
+
+
+# ---------------------------------------------------------------------------
+# EMPTY-COLL: a work-list's "seen" set that is tested but never filled
+# ---------------------------------------------------------------------------
+_POSITIVE["EMPTY-COLL"] = '''
+def closure_glyphs(self, s):
+    glyphs = s.glyphs
+    covered = set()
+    new = set(glyphs)
+    while new:
+        oldNew = new
+        new = set()
+        for glyphName in oldNew:
+            if glyphName in covered:
+                continue
+            for comp in self.records[glyphName].components:
+                glyphs.add(comp.glyphName)
+                if comp.glyphName not in covered:
+                    new.add(comp.glyphName)
+'''
+EMPTY_COLL_AUDIT = {}
+
+
+def empty_collection(ctx, repo, scope=("",), rule="EMPTY-COLL", _self=False):
+    ctx.rule(rule, "a local bound once to an empty set / list / dict and then only tested (`x in c`, `not in`, iteration, len, truthiness) is filled somewhere: by a mutating method, a subscript store, an augmented assignment, or by being handed to a call / stored / returned; a 'seen' set that nothing adds to makes every membership test vacuous (a closure loop over a cyclic graph then never terminates, a de-duplication never de-duplicates)", floor=1)
+    if not _self:
+        _selfcheck(ctx, rule, empty_collection)
+    for rel in sorted(repo.rels()):
+        if not _in_scope(rel, scope):
+            continue
+        m = repo.mod(rel)
+        total = 0
+        bad = []
+        for q, f in sorted(m.funcs.items()):
+            fn = f.node
+            if isinstance(fn, ast.Lambda):
+                continue
+            binds = {}
+            for n in walk_no_nested(fn):
+                if isinstance(n, ast.Assign) and len(n.targets) == 1 and isinstance(n.targets[0], ast.Name):
+                    binds.setdefault(n.targets[0].id, []).append(n.value)
+                elif isinstance(n, (ast.Assign, ast.AugAssign, ast.AnnAssign, ast.For, ast.With, ast.comprehension, ast.NamedExpr)):
+                    tg = n.targets if isinstance(n, ast.Assign) else [getattr(n, "target", None)] if not isinstance(n, ast.With) else [i.optional_vars for i in n.items]
+                    for t in tg:
+                        if t is not None:
+                            for x in ast.walk(t):
+                                if isinstance(x, ast.Name) and isinstance(x.ctx, ast.Store):
+                                    binds.setdefault(x.id, []).append(None)
+            cands = [k for k, v in binds.items() if len(v) == 1 and v[0] is not None and _empty_container(v[0])]
+            if not cands:
+                continue
+            # any use that could fill the container or let it escape; nested functions count (closures may fill it)
+            for name in cands:
+                reads = [x for x in ast.walk(fn) if isinstance(x, ast.Name) and x.id == name and isinstance(x.ctx, ast.Load)]
+                if not reads:
+                    continue
+                total += 1
+                passive = True
+                tested = False
+                for x in reads:
+                    p = parent(x)
+                    if isinstance(p, ast.Compare) and any(c is x for c in p.comparators) and all(isinstance(o, (ast.In, ast.NotIn)) for o in p.ops):
+                        tested = True
+                        continue
+                    if isinstance(p, (ast.For, ast.comprehension)) and p.iter is x:
+                        continue
+                    if isinstance(p, ast.Call) and isinstance(p.func, ast.Name) and p.func.id in ("len", "bool", "sorted", "list", "tuple", "set", "frozenset", "any", "all") and x in p.args:
+                        gp = parent(p)
+                        if isinstance(gp, (ast.Return, ast.Assign, ast.Call, ast.Yield)) and p.func.id not in ("len", "bool", "any", "all"):
+                            passive = False  # a copy escapes; irrelevant for emptiness but keep conservative
+                        continue
+                    if isinstance(p, (ast.If, ast.While, ast.IfExp)) and p.test is x or isinstance(p, ast.UnaryOp) and isinstance(p.op, ast.Not) or isinstance(p, ast.BoolOp):
+                        continue
+                    passive = False
+                    break
+                if passive and tested:
+                    key = (rel, q.split("#")[0], name)
+                    if key in EMPTY_COLL_AUDIT:
+                        ctx.ob(rule, f"{rel}:{q}", f"{name} (audited: {EMPTY_COLL_AUDIT[key]})", True)
+                    else:
+                        bad.append(f"{q}: `{name}` starts empty, is tested for membership, and nothing ever adds to it")
+        if total:
+            ctx.ob(rule, f"{rel}:<module>", f"{total} locals that start as empty containers are filled or handed on somewhere", not bad, "; ".join(bad[:3]))
+
+
+NEW8 = [empty_collection]
+GENERIC.extend(NEW8)
